@@ -161,6 +161,10 @@ def run(report, replay=None):
     pool = [chr(c) for c in range(32, 127) if chr(c) != '"'] + ['\t', 'é', 'ß', '→', '\\']
     strings = ['{', '}', '[', ']', '(', ')', '-', '+', '*', '/', '%', '^', ':', 'not', 'and', 'or', '==', '<', 'end', 'begin', 'all', '8:00', '5', 'hue',
                '', ' ', '#', 'a # b', '\\', 'ab\\', '\\n', '{}', '{0}', 'end', 'set "', "it's", '  lead', 'trail  ', '[x]', '%', '# not a comment', 'a\\']
+    # characters that are not line breaks for the compiler although str.splitlines() would cut there, and other controls
+    odd = ['\x0b', '\x0c', '\x1c', '\x1d', '\x1e', '\x85', '\u2028', '\u2029', '\x01', '\x1f', '\x7f', '\xa0', '\u3000', '\ufeff']
+    strings += ['left%sright' % ch for ch in odd] + [ch for ch in odd] + ['a%s' % ch for ch in odd[:8]]
+    pool += odd
     strings = [s for s in strings if '"' not in s]
     for _ in range(2000 if tier == 'thorough' else 200):
         strings.append(''.join(rng.choice(pool) for _ in range(rng.randint(1, 12))))
